@@ -508,6 +508,8 @@ func (x *Exec) appendSeq(st *State, dst SliceVal, src StrVal) SliceVal {
 	res := SliceVal{Reg: reg, Off: dst.Off, Len: newLen, Cap: cp, Elem: dst.Elem}
 	if dst.Cat != nil {
 		res.Cat = append(append([]StrVal{}, dst.Cat...), src)
+	} else {
+		x.untrackedAppend = true
 	}
 	return res
 }
